@@ -74,7 +74,7 @@ func (m *Model) RunOwn(s *Sink, rule string) {
 						s.OK(rule, key, m.InstrPos(st), "the store leaves the loop (break/return): one program is applied to one use per call")
 					}
 				}
-				// callers must pass a fresh program per call
+				// callers must pass a fresh program per call (a caller that merely forwards its own parameter is looked through)
 				if par, isPar := P.(*ssa.Parameter); isPar {
 					pi := -1
 					for i, q := range fn.Params {
@@ -82,13 +82,26 @@ func (m *Model) RunOwn(s *Sink, rule string) {
 							pi = i
 						}
 					}
-					if node := m.CG.Nodes[fn]; node != nil {
+					var checkCallers func(callee *ssa.Function, pi int, depth int)
+					checkCallers = func(callee *ssa.Function, pi int, depth int) {
+						node := m.CG.Nodes[callee]
+						if node == nil || pi < 0 {
+							return
+						}
 						for _, e := range node.In {
 							caller := e.Caller.Func
-							if isUserPkg(fnPkgPath(caller)) || !m.InModule(caller) {
+							if isUserPkg(fnPkgPath(caller)) || !m.InModule(caller) || pi >= len(e.Site.Common().Args) {
 								continue
 							}
 							arg := e.Site.Common().Args[pi]
+							if fp, isFwd := arg.(*ssa.Parameter); isFwd && depth < 3 {
+								for i, q := range caller.Params {
+									if q == fp {
+										checkCallers(caller, i, depth+1)
+									}
+								}
+								continue
+							}
 							k2 := fmt.Sprintf("%s|passes a freshly parsed program per component use", fnKey(caller))
 							cl := loopOf(naturalLoops(caller), e.Site.Block())
 							fresh := false
@@ -104,10 +117,11 @@ func (m *Model) RunOwn(s *Sink, rule string) {
 							if fresh && (cl == nil || freshInLoop(m, arg, cl, 0)) {
 								s.OK(rule, k2, m.InstrPos(e.Site), "the program argument is produced by a parse inside the same loop pass")
 							} else {
-								s.Violation(rule, k2, m.InstrPos(e.Site), "%s hands %s a program that is not freshly parsed for this use (defined outside the loop over the page's components, or not fresh): several uses would alias one program", fnKey(caller), fnKey(fn))
+								s.Violation(rule, k2, m.InstrPos(e.Site), "%s hands %s a program that is not freshly parsed for this use (defined outside the loop over the page's components, or not fresh): several uses would alias one program", fnKey(caller), fnKey(callee))
 							}
 						}
 					}
+					checkCallers(fn, pi, 0)
 				}
 			}
 		}
@@ -146,21 +160,38 @@ func (m *Model) RunOwn(s *Sink, rule string) {
 			}
 			return false
 		}
-		for _, b := range ac.Blocks {
+		var acBlocks []*ssa.BasicBlock
+		for _, f := range m.ModFns { // the store may live in ApplyComponent or in a method it delegates to
+			if f.Blocks != nil && shortPkg(fnPkgPath(f)) == "ast" {
+				acBlocks = append(acBlocks, f.Blocks...)
+			}
+		}
+		for _, b := range acBlocks {
 			for _, in := range b.Instrs {
 				st, ok := in.(*ssa.Store)
 				if !ok {
 					continue
 				}
 				fa, ok := st.Addr.(*ssa.FieldAddr)
-				if !ok || fieldName(fa.X.Type(), fa.Field) != "Block" {
+				if !ok || fieldName(fa.X.Type(), fa.Field) != "Block" || !strings.HasSuffix(derefTypeString(fa.X.Type()), "ast.ComponentStmt") {
 					continue
 				}
 				if blockNilFact(b, fa.X) {
 					okSkip = true
 					continue
 				}
-				if c, isC := fa.X.(*ssa.Call); isC && c.Call.StaticCallee() != nil && m.InModule(c.Call.StaticCallee()) && c.Call.StaticCallee().Blocks != nil {
+				holder := fa.X
+				if _, isPar := holder.(*ssa.Parameter); isPar {
+					// the use is handed in by the caller(s): what they pass
+					if rs := m.resolveUp(holder, nil, 0); len(rs) == 1 {
+						holder = rs[0]
+						if hi, isInstr := holder.(ssa.Instruction); isInstr && blockNilFact(hi.Block(), holder) {
+							okSkip = true
+							continue
+						}
+					}
+				}
+				if c, isC := holder.(*ssa.Call); isC && c.Call.StaticCallee() != nil && m.InModule(c.Call.StaticCallee()) && c.Call.StaticCallee().Blocks != nil {
 					h := c.Call.StaticCallee()
 					all, n := true, 0
 					for _, hb := range h.Blocks {
